@@ -8,6 +8,7 @@
      tx   {id, t}     RoutingIndication with frame id written to the socket
      con  {id}        local L_Data.con for frame id handed to cemi_received_callback
      ret  {id}        send_cemi(frame id) returned
+     cancelled {id}   the task inside send_cemi(frame id) was cancelled before the frame was written
      end  {t}         end of the observation (long after the last pause): nothing may still be waiting          *)
 EXTENDS Integers, Sequences, FiniteSets, Json, IOUtils, TLC
 Traces == ndJsonDeserialize(IOEnv.TRACE_FILE)
@@ -24,6 +25,7 @@ Step ==
      \/ Ev.ev = "tx" /\ R!OnTime(Ev.t) /\ R!Tx(Ev.id, Ev.t)
      \/ Ev.ev = "con" /\ R!Con(Ev.id)
      \/ Ev.ev = "ret" /\ R!Ret(Ev.id)
+     \/ Ev.ev = "cancelled" /\ R!Cancelled(Ev.id)
      \/ Ev.ev = "end" /\ R!OnTime(Ev.t) /\ DOMAIN pend = {} /\ (\A i \in txd : cons[i] = 1) /\ UNCHANGED <<fc, lastTx, pend, txd, cons>>
 TSpec == TInit /\ [][Step]_vars
 Mark == /\ TLCSet(2, [TLCGet(2) EXCEPT ![tid] = IF @ < l THEN l ELSE @])
